@@ -93,6 +93,7 @@ pub fn worker_main(args: &[String]) -> i32 {
     let stride: u64 = args[4].parse().unwrap();
     let total: u64 = args[5].parse().unwrap();
     let budget_s: u64 = args[6].parse().unwrap();
+    crate::gen::set_deep(tier == Tier::Thorough);
 
     silence_stdout();
     exec::install_panic_hook();
@@ -453,6 +454,7 @@ pub fn check_main(prop_id: &str, opts: &CheckOpts) -> i32 {
 
 pub fn run_batch(prop: &dyn Property, prop_id: &str, opts: &CheckOpts) -> Batch {
     let t0 = Instant::now();
+    crate::gen::set_deep(opts.tier == Tier::Thorough);
     let total = opts.runs.or_else(|| env_u64("VERIF_RUNS")).unwrap_or_else(|| prop.runs(opts.tier));
     let budget_s = opts
         .budget_s
